@@ -6,6 +6,9 @@ use crate::tape::Tape;
 use serde_json::{json, Value};
 use std::collections::{BTreeMap, BTreeSet, VecDeque};
 
+/// Bound on `expansion_estimate` for generated programs (nodes of evaluated values).
+pub const EXPANSION_LIMIT: f64 = 150_000.0;
+
 #[derive(Clone, Debug)]
 pub struct GenCfg {
     /// Avoid, by construction, the classes excluded from the strict fragment.
@@ -26,6 +29,8 @@ pub struct GenCfg {
     pub max_resources: usize,
     /// Also close cycles that have nothing to cut at (expected to be rejected).
     pub invalid_cycles: bool,
+    /// Place imported modules in sub-directories.
+    pub subdirs: bool,
     /// Stress lexical scoping: functions of 2-3 same-kinded parameters named from a 3-name pool,
     /// whose bodies pass their parameters on to other functions in any order.
     pub scope_stress: bool,
@@ -47,6 +52,7 @@ impl GenCfg {
             annotations: true,
             max_resources: 3,
             invalid_cycles: false,
+            subdirs: true,
             scope_stress: false,
         }
     }
@@ -156,7 +162,13 @@ impl<'t> Gen<'t> {
 
     fn add_module(&mut self) -> usize {
         let i = self.prog.modules.len();
-        let file = if i == 0 { "main.oal".to_owned() } else { format!("m{i}.oal") };
+        // Modules other than main may live in sub-directories (imports are relative to the importer).
+        let file = if i == 0 {
+            "main.oal".to_owned()
+        } else {
+            let dir = if self.cfg.subdirs { self.t.pick(&["", "", "lib/", "lib/sub/", "other/"]) } else { "" };
+            format!("{dir}m{i}.oal")
+        };
         self.prog.modules.push(Module { file, stmts: Vec::new() });
         self.mod_decls.push(Vec::new());
         i
@@ -491,7 +503,7 @@ impl<'t> Gen<'t> {
         } else {
             None
         };
-        let file = self.prog.modules[target].file.clone();
+        let file = relative_path(&self.prog.modules[m].file, &self.prog.modules[target].file);
         let path = match self.t.choose(4) {
             0 => format!("./{file}"),
             1 => format!("x/../{file}"),
@@ -1379,7 +1391,26 @@ impl<'t> Gen<'t> {
         }
     }
 
-    pub fn program(mut self) -> (Program, BTreeSet<&'static str>) {
+    /// A program whose evaluation is feasible: declarations are inlined at every use and function
+    /// bodies at every application, so a generated program can denote values of exponential size
+    /// (three functions that each use their parameter four times, applied to each other three
+    /// deep, make millions of nodes). Such programs are replaced by a trivial one and counted.
+    pub fn program(self) -> (Program, BTreeSet<&'static str>) {
+        let (prog, mut labels) = self.program_unbounded();
+        if expansion_estimate(&prog) <= EXPANSION_LIMIT {
+            return (prog, labels);
+        }
+        let res = E::Relation(
+            Box::new(E::Uri(vec![Seg::Root], None)),
+            vec![E::Transfer { methods: vec![Method::Get], params: None, domain: None, range: Box::new(E::Content(Vec::new(), None)) }],
+        );
+        let small = Program { modules: vec![Module { file: "main.oal".into(), stmts: vec![Stmt::Res(res)] }], imports: Vec::new(), binders: Vec::new() };
+        labels.clear();
+        labels.insert("fallback:expansion-too-large");
+        (small, labels)
+    }
+
+    pub fn program_unbounded(mut self) -> (Program, BTreeSet<&'static str>) {
         self.add_module();
         let n_res = self.t.range(1, self.cfg.max_resources.max(1));
         // A few declarations first, so that resources have something to mention.
@@ -1461,6 +1492,27 @@ impl<'t> Gen<'t> {
         }
         (self.prog, self.labels)
     }
+}
+
+/// The relative path from the directory of file `from` to the file `to`.
+pub fn relative_path(from: &str, to: &str) -> String {
+    let dir = |p: &str| -> Vec<String> {
+        let mut parts: Vec<String> = p.split('/').map(|s| s.to_owned()).collect();
+        parts.pop();
+        parts
+    };
+    let (fd, td) = (dir(from), dir(to));
+    let mut common = 0;
+    while common < fd.len() && common < td.len() && fd[common] == td[common] {
+        common += 1;
+    }
+    let mut out: Vec<String> = Vec::new();
+    for _ in common..fd.len() {
+        out.push("..".to_owned());
+    }
+    out.extend(td[common..].iter().cloned());
+    out.push(to.rsplit('/').next().unwrap().to_owned());
+    out.join("/")
 }
 
 /// The binder at the head of an expression (through parentheses, annotations and postfix marks).
